@@ -261,19 +261,19 @@ def SigOracle.at (o : SigOracle) (remaining : Nat) : Option (Nat × Sig) :=
 structure ModItemIn where
   attrs : List Attr := []
   vis : Toks := []
+  unsafe_ : Bool := false
   ident : String
   body : Toks := []
   oracle : SigOracle := []
   deriving DecidableEq, Repr, Inhabited
 
 def ModItemIn.print (m : ModItemIn) : Toks :=
-  printAttrs m.attrs ++ m.vis ++ [i "mod", i m.ident, braces m.body]
+  printAttrs m.attrs ++ m.vis ++ (if m.unsafe_ then [i "unsafe"] else []) ++ [i "mod", i m.ident, braces m.body]
 
 structure ImplItemIn where
   attrs : List Attr := []
   unsafe_ : Bool := false
   traitPath : Toks
-  lastSeg : Option String := none
   selfTy : Toks
   body : Toks := []
   oracle : SigOracle := []
